@@ -266,6 +266,9 @@ func genC11(g *Gen) error {
 		return err
 	}
 	g.P("def src_writeShardKey : String := %s", leanStr(unm))
+	if err := genC11Batch(g); err != nil {
+		return err
+	}
 	c, err := g.Const(shardinfo, "maxConditionTagGroups")
 	if err != nil {
 		return err
@@ -275,5 +278,121 @@ func genC11(g *Gen) error {
 	}
 	g.P("def maxConditionTagGroups : Nat := %s", c)
 	g.Footer()
+	return nil
+}
+
+// genC11Batch: facts about the stateful batch routing (coordinator/points_writer.go,
+// coordinator/write_helper.go) that OG/C11/Batch.lean transcribes.
+//
+//	skRefreshGuard        the condition under which updateShardGroupAndShardKey re-resolves the
+//	                      ShardKeyInfo, translated (the model's step function calls it)
+//	routeLoopCalls        the calls on wh / w / ctx in the row loop of routeAndMapOriginRows, in
+//	                      source order (sameMeasurement must come before createMeasurement)
+//	updateSGCalls         the same for updateShardGroupAndShardKey
+//	src_*                 bodies pinned as text
+func genC11Batch(g *Gen) error {
+	const pw = "coordinator/points_writer.go"
+	const whf = "coordinator/write_helper.go"
+	upd, err := g.Func(pw, "PointsWriter.updateShardGroupAndShardKey")
+	if err != nil {
+		return err
+	}
+	// the if statement whose body assigns *si
+	var guard *ast.IfStmt
+	ast.Inspect(upd.Body, func(n ast.Node) bool {
+		is, ok := n.(*ast.IfStmt)
+		if !ok || guard != nil {
+			return guard == nil
+		}
+		for _, st := range is.Body.List {
+			inner, ok := st.(*ast.IfStmt)
+			if !ok {
+				continue
+			}
+			for _, b := range inner.Body.List {
+				if as, ok := b.(*ast.AssignStmt); ok && len(as.Lhs) == 1 && g.Src(as.Lhs[0]) == "*si" {
+					guard = is
+				}
+			}
+		}
+		return guard == nil
+	})
+	if guard == nil {
+		return fmt.Errorf("%s updateShardGroupAndShardKey: no if statement that assigns *si", pw)
+	}
+	tr := &Tr{g: g}
+	tr.Ident = func(name string) string {
+		if name == "wh.sameMst" {
+			return "sameMst"
+		}
+		return ""
+	}
+	cond, err := tr.expr(guard.Cond)
+	if err != nil {
+		return fmt.Errorf("%s updateShardGroupAndShardKey guard: %w", pw, err)
+	}
+	g.P("def skRefreshGuard (sameSg sameMst : Bool) : Bool :=\n  %s\n", cond)
+
+	calls := func(body ast.Node) []string {
+		var out []string
+		ast.Inspect(body, func(n ast.Node) bool {
+			ce, ok := n.(*ast.CallExpr)
+			if !ok {
+				return true
+			}
+			se, ok := ce.Fun.(*ast.SelectorExpr)
+			if !ok {
+				return true
+			}
+			if id, ok := se.X.(*ast.Ident); ok && (id.Name == "wh" || id.Name == "w" || id.Name == "ctx" || id.Name == "sg" || id.Name == "r") {
+				out = append(out, id.Name+"."+se.Sel.Name)
+			}
+			if g.Src(se.X) == "w.MetaClient" {
+				out = append(out, "w.MetaClient."+se.Sel.Name)
+			}
+			return true
+		})
+		return out
+	}
+	route, err := g.Func(pw, "PointsWriter.routeAndMapOriginRows")
+	if err != nil {
+		return err
+	}
+	var loop *ast.ForStmt
+	for _, st := range route.Body.List {
+		if fs, ok := st.(*ast.ForStmt); ok && fs.Cond != nil && g.Src(fs.Cond) == "i < len(rows)" {
+			loop = fs
+		}
+	}
+	if loop == nil {
+		return fmt.Errorf("%s routeAndMapOriginRows: row loop not found", pw)
+	}
+	g.StrList("routeLoopCalls", calls(loop.Body))
+	g.StrList("updateSGCalls", calls(upd.Body))
+	g.P("def src_updateShardGroupAndShardKey : String := %s", leanStr(g.Src(upd.Body)))
+	drop, err := c11FindIf(g, pw, "PointsWriter.routeAndMapOriginRows", "isDropRow")
+	if err != nil {
+		return err
+	}
+	g.P("def src_dropRowBranch : String := %s", leanStr(drop))
+	for _, f := range []struct{ rel, name, lean string }{
+		{whf, "writeHelper.sameMeasurement", "src_sameMeasurement"},
+		{whf, "writeHelper.createMeasurement", "src_whCreateMeasurement"},
+		{whf, "createMeasurement", "src_createMeasurement"},
+		{whf, "createMeasurementBase", "src_createMeasurementBase"},
+		{whf, "writeHelper.createShardGroup", "src_whCreateShardGroup"},
+		{whf, "writeHelper.reset", "src_whReset"},
+	} {
+		fd, err := g.Func(f.rel, f.name)
+		if err != nil {
+			return err
+		}
+		g.P("def %s : String := %s", f.lean, leanStr(g.Src(fd.Body)))
+	}
+	msk, err := g.Const(pw, "MaxShardKey")
+	if err != nil {
+		return err
+	}
+	g.P("def maxShardKey : Nat := %s", msk)
 	return nil
 }
